@@ -11,6 +11,14 @@ pub mod option_i64_null_as_zero {
             write!(formatter, "an integer")
         }
 
+        fn visit_unit<E: Error>(self) -> Result<Self::Value, E> {
+            Ok(None)
+        }
+
+        fn visit_none<E: Error>(self) -> Result<Self::Value, E> {
+            Ok(None)
+        }
+
         fn visit_i64<E: Error>(self, value: i64) -> Result<Self::Value, E> {
             if value == 0 {
                 Ok(None)
@@ -35,7 +43,8 @@ pub mod option_i64_null_as_zero {
     where
         D: Deserializer<'de>,
     {
-        deserializer.deserialize_i64(IntVisitor)
+        // a nullable member may be sent as an explicit null
+        deserializer.deserialize_any(IntVisitor)
     }
 
     pub fn serialize<S>(value: &Option<i64>, serializer: S) -> Result<S::Ok, S::Error>
